@@ -103,7 +103,8 @@ impl Ctx {
         match r {
             Ok(Ok((w, announced, rt, why))) => {
                 let okl = announced == w.len();
-                let okr = rt != Some(false);
+                // what the library wrote must be readable by the library, and equal
+                let okr = rt == Some(true);
                 self.out.case("", &[], &["object".into(), name.into(), hx(&w)], &format!("announced={} written={} parses-back={:?}{}", announced, w.len(), rt, why), Some(okl && okr), &format!("{cls}-object"));
                 self.packets_to_model(&w, cls);
             }
@@ -424,6 +425,66 @@ fn main() {
                     cx.object(&format!("signed message {mi} packet"), &p, |b| PacketParser::new(b).next().and_then(|r| r.ok()), &format!("signed-message-{mi}"));
                 }
                 let _ = Message::from_bytes(&bytes[..]).map(|mut m| { let mut o = Vec::new(); let _ = m.read_to_end(&mut o); });
+            }
+        }
+    }
+
+    // ---- B''. session-key packets built as plain values of the public enums, every S2K specifier
+    // kind (including reserved / private / unassigned type octets) and every AEAD mode
+    {
+        use pgp::packet::{AeadProps, PacketHeader, PublicKeyEncryptedSessionKey as Pk, SymKeyEncryptedSessionKey as Sk};
+        use pgp::types::{Mpi, PkeskBytes, Tag};
+        let mut s2ks: Vec<(String, StringToKey)> = vec![
+            ("simple".into(), StringToKey::Simple { hash_alg: HashAlgorithm::Sha256 }),
+            ("salted".into(), StringToKey::Salted { hash_alg: HashAlgorithm::Sha512, salt: [7; 8] }),
+            ("iterated".into(), StringToKey::IteratedAndSalted { hash_alg: HashAlgorithm::Sha256, salt: [9; 8], count: 200 }),
+            ("argon2".into(), StringToKey::Argon2 { salt: [3; 16], t: 1, p: 4, m_enc: 21 }),
+            ("reserved".into(), StringToKey::Reserved { unknown: cx.rng.bytes(5).into() }),
+        ];
+        for typ in [100u8, 105, 110] { s2ks.push((format!("private{typ}"), StringToKey::Private { typ, unknown: cx.rng.bytes(3 + typ as usize % 7).into() })); }
+        for typ in [5u8, 6, 42, 99, 111, 200, 255] { s2ks.push((format!("other{typ}"), StringToKey::Other { typ, unknown: cx.rng.bytes(typ as usize % 9).into() })); }
+        let reparse = |b: &[u8]| PacketParser::new(b).next().and_then(|r| r.ok());
+        for (sn, s2k) in &s2ks {
+            for (an, aead) in [("eax", AeadProps::Eax { iv: [1; 16] }), ("ocb", AeadProps::Ocb { iv: [2; 15] }), ("gcm", AeadProps::Gcm { iv: [3; 12] })] {
+                let ek: Vec<u8> = cx.rng.bytes(32 + 16);
+                let iv_len = match &aead { AeadProps::Eax { .. } => 16, AeadProps::Ocb { .. } => 15, AeadProps::Gcm { .. } => 12 };
+                let len = 1 + 1 + 1 + 1 + 1 + s2k.write_len() + iv_len + ek.len();
+                let p = Sk::V6 { packet_header: PacketHeader::new_fixed(Tag::SymKeyEncryptedSessionKey, len as u32), sym_algorithm: SymmetricKeyAlgorithm::AES256, s2k: s2k.clone(), aead, encrypted_key: ek.into() };
+                cx.object(&format!("skesk v6 {sn} {an}"), &Packet::from(p), reparse, &format!("literal-skesk6-{sn}"));
+            }
+            // v4: the specifier is not length-framed; only the self-delimiting kinds can be followed by a key
+            let self_delimiting = matches!(s2k, StringToKey::Simple { .. } | StringToKey::Salted { .. } | StringToKey::IteratedAndSalted { .. } | StringToKey::Argon2 { .. });
+            for ek in [vec![], cx.rng.bytes(17)] {
+                if !self_delimiting && !ek.is_empty() { continue; }
+                let len = 2 + s2k.write_len() + ek.len();
+                let p = Sk::V4 { packet_header: PacketHeader::new_fixed(Tag::SymKeyEncryptedSessionKey, len as u32), sym_algorithm: SymmetricKeyAlgorithm::AES128, s2k: s2k.clone(), encrypted_key: ek.into() };
+                cx.object(&format!("skesk v4 {sn}"), &Packet::from(p), reparse, &format!("literal-skesk4-{sn}"));
+            }
+        }
+        // PKESK: every value shape, v3 and v6, with and without recipient
+        let k4 = &keys.iter().find(|(n, _)| n == "v4-with-subkey").unwrap().1;
+        let k6 = &keys.iter().find(|(n, _)| n == "v6-with-subkey").unwrap().1;
+        let shapes: Vec<(&str, pgp::crypto::public_key::PublicKeyAlgorithm, PkeskBytes, PkeskBytes)> = vec![
+            ("rsa", pgp::crypto::public_key::PublicKeyAlgorithm::RSA, PkeskBytes::Rsa { mpi: Mpi::from_slice(&cx.rng.bytes(256)) }, PkeskBytes::Rsa { mpi: Mpi::from_slice(&cx.rng.bytes(255)) }),
+            ("ecdh", pgp::crypto::public_key::PublicKeyAlgorithm::ECDH, PkeskBytes::Ecdh { public_point: Mpi::from_slice(&[&[0x40u8][..], &cx.rng.bytes(32)[..]].concat()), encrypted_session_key: cx.rng.bytes(48).into() }, PkeskBytes::Ecdh { public_point: Mpi::from_slice(&[&[0x04u8][..], &cx.rng.bytes(64)[..]].concat()), encrypted_session_key: cx.rng.bytes(40).into() }),
+            ("x25519", pgp::crypto::public_key::PublicKeyAlgorithm::X25519, PkeskBytes::X25519 { ephemeral: [5; 32], session_key: cx.rng.bytes(24).into(), sym_alg: Some(SymmetricKeyAlgorithm::AES128) }, PkeskBytes::X25519 { ephemeral: [6; 32], session_key: cx.rng.bytes(40).into(), sym_alg: None }),
+            ("x448", pgp::crypto::public_key::PublicKeyAlgorithm::X448, PkeskBytes::X448 { ephemeral: [5; 56], session_key: cx.rng.bytes(24).into(), sym_alg: Some(SymmetricKeyAlgorithm::AES256) }, PkeskBytes::X448 { ephemeral: [6; 56], session_key: cx.rng.bytes(40).into(), sym_alg: None }),
+        ];
+        for (sn, alg, v3vals, v6vals) in shapes {
+            for wild in [false, true] {
+                let id = if wild { pgp::types::KeyId::from([0u8; 8]) } else { k4.legacy_key_id() };
+                let p = Pk::V3 { packet_header: PacketHeader::new_fixed(Tag::PublicKeyEncryptedSessionKey, 0), id, pk_algo: alg, values: v3vals.clone() };
+                let len = p.write_len();
+                let Pk::V3 { id, pk_algo, values, .. } = p else { unreachable!() };
+                let p = Pk::V3 { packet_header: PacketHeader::new_fixed(Tag::PublicKeyEncryptedSessionKey, len as u32), id, pk_algo, values };
+                cx.object(&format!("pkesk v3 {sn} wild={wild}"), &Packet::from(p), reparse, &format!("literal-pkesk3-{sn}"));
+                for fp in [None, Some(k4.fingerprint()), Some(k6.fingerprint())] {
+                    if wild && fp.is_some() { continue; }
+                    let p = Pk::V6 { packet_header: PacketHeader::new_fixed(Tag::PublicKeyEncryptedSessionKey, 0), fingerprint: fp.clone(), pk_algo: alg, values: v6vals.clone() };
+                    let len = p.write_len();
+                    let p = Pk::V6 { packet_header: PacketHeader::new_fixed(Tag::PublicKeyEncryptedSessionKey, len as u32), fingerprint: fp, pk_algo: alg, values: v6vals.clone() };
+                    cx.object(&format!("pkesk v6 {sn}"), &Packet::from(p), reparse, &format!("literal-pkesk6-{sn}"));
+                }
             }
         }
     }
